@@ -1,5 +1,6 @@
 import Comdex.Lemmas.AmmMatchAccount
 import Comdex.Lemmas.AmmFindPriceBook
+import Comdex.Lemmas.AmmPool
 /-!
 # C05 — Batch matching conserves coins and never fills an order beyond its limits
 
@@ -553,5 +554,54 @@ example : findMatchPrice (makeView (newBook exOrders)) 1 = some 1100000000000000
     T 1 1520 = 900000000000000000 ∧ T 1 1531 = 1100000000000000000 := by
   set_option maxRecDepth 20000 in
   refine ⟨by decide, by decide, by decide, by decide⟩
+
+
+/-! ## the pool side of a batch (basic pools) — modelled, no longer an input
+
+`rx` quote reserve, `ry` base reserve; raw prices are ×10^18 (`Dec.P`). -/
+
+/-- **`BasicPool.BuyAmountOver`**: the amount `a` a pool offers to buy at price `t` costs at most its quote reserve, and
+`t·(ry + a) ≤ rx`, i.e. the pool pays at most `rx / (ry + a)` — on its constant-product curve the trade does not decrease
+`rx·ry` (before the buyer-side rounding-up of the payment, which costs the pool less than one quote unit) -/
+theorem pool_buy_amount_on_curve (pl : BPool) (t a : Int) (hry : 0 ≤ pl.ry) (ht : minPoolPrice ≤ t)
+    (h : pl.buyAmountOver t = some a) (ha : 0 < a) :
+    quoteCeil t a ≤ pl.rx ∧ t * (pl.ry + a) ≤ pl.rx * Dec.P :=
+  (buyAmountOver_spec pl t a hry ht h).2 ha
+
+/-- **`BasicPool.SellAmountUnder`** (prices up to 10^18): the amount `a` offered for sale at `t` is covered by the base reserve
+and `rx ≤ t·(ry − a)`, i.e. the pool receives at least `rx / (ry − a)` per unit -/
+theorem pool_sell_amount_on_curve (pl : BPool) (t a : Int) (hrx : 0 ≤ pl.rx) (ht0 : 0 < t) (ht : t ≤ Dec.PP)
+    (h : pl.sellAmountUnder t = some a) (ha : 0 < a) :
+    a ≤ pl.ry ∧ pl.rx * Dec.P ≤ t * (pl.ry - a) :=
+  (sellAmountUnder_spec pl t a hrx ht0 ht h).2 ha
+
+/-- **`PoolBuyOrders`**: every order the tick loop places is (replayed on the running reserves, `monPoolBuys`) covered by the
+quote reserve and not above the curve; the only other order is the one `BuyAmountTo` contributes at the upper price limit when
+the pool price is above it (approximate square roots: monitored, not proved).  Hence the pool never offers more quote coin
+than it holds. -/
+theorem pool_buy_orders_within_reserves_and_curve (pl : BPool) (lowest highest : Int) (prec : Nat) (hry : 0 ≤ pl.ry)
+    (hlow : minPoolPrice ≤ lowest) : BuysOk pl highest (poolBuyOrders pl lowest highest prec) :=
+  poolBuyOrders_ok pl lowest highest prec hry hlow
+
+/-- **`PoolSellOrders`** likewise (price limits up to 10^18); here the `SellAmountTo` order too is proved to be covered by the
+base reserve -/
+theorem pool_sell_orders_within_reserves_and_curve (pl : BPool) (lowest highest : Int) (prec : Nat) (hrx : 0 ≤ pl.rx)
+    (hry : 0 ≤ pl.ry) (hhigh : highest ≤ Dec.PP) : SellsOk pl lowest (poolSellOrders pl lowest highest prec) :=
+  poolSellOrders_ok pl lowest highest prec hrx hry hhigh
+
+/-- the totals: quote coin offered by the buy orders ≤ `rx`, base coin offered by the sell orders ≤ `ry` (for lists that satisfy
+the replayed conditions) -/
+theorem pool_offers_within_reserves (pl : BPool) (bl sl : List (Int × Int)) (hb : monPoolBuys pl bl = true)
+    (hs : monPoolSells pl sl = true) :
+    (bl ≠ [] → sumInt (bl.map fun pa => quoteCeil pa.1 pa.2) ≤ pl.rx) ∧ (sl ≠ [] → sumInt (sl.map fun pa => pa.2) ≤ pl.ry) :=
+  ⟨fun hne => (monPoolBuys_total pl bl hb).resolve_right hne, fun hne => (monPoolSells_total pl sl hs).resolve_right hne⟩
+
+/-- non-vacuity: a pool 10^6 : 10^6 (price 1.0) inside the limits 0.9 … 1.1 at precision 2 places 37 buy orders starting at 0.999
+and they satisfy the replayed conditions -/
+example : (poolBuyOrders ⟨1000000, 1000000⟩ 900000000000000000 1100000000000000000 2).length = 37 ∧
+    monPoolBuys ⟨1000000, 1000000⟩ (poolBuyOrders ⟨1000000, 1000000⟩ 900000000000000000 1100000000000000000 2) = true ∧
+    monPoolSells ⟨1000000, 1000000⟩ (poolSellOrders ⟨1000000, 1000000⟩ 900000000000000000 1100000000000000000 2) = true := by
+  set_option maxRecDepth 100000 in
+  refine ⟨by decide, by decide, by decide⟩
 
 end Comdex.C05
